@@ -343,7 +343,7 @@ def expr_model(items, fam="expr"):
     if not any("x" in (ders(e[1]) | ders(e[2])) for e in eqs):
         decls.append(Decl("w_s"))
         eqs.append(("eq", ("der", V("x")), V("w_s")))
-    m = SModel(decls, eqs, mode=items[0][1])
+    m = SModel(decls, eqs, mode=items[0][1] if items else "min")
     if fam == "lit":
         m.ints = ("n",)
     return m
@@ -1085,6 +1085,11 @@ def job_expr(job):
     out = []
     if res and res[0][0] == "ok":
         return {"viol": [], "judged": judged}
+    # the frame alone (declarations, no expression) fails: every single expression would only repeat that
+    r0 = judge(expr_model([], fam), seed, npoints)
+    if not (r0 and r0[0][0] == "ok"):
+        t, mode, orient = items[0]
+        return {"viol": [("%s:expr" % sig, "frame of the %s family, whatever the expression: %s" % (fam, msg), {"family": fam, "tree": t, "mode": mode, "orient": orient}) for sig, msg, _ in r0], "judged": judged}
     # attribute to single expressions: re-run each alone (a pack fails as a whole when the module does not compile)
     for it in items:
         r1 = judge(expr_model([it], fam), seed, npoints)
